@@ -79,7 +79,7 @@ pub fn collect(tier: &str, caps: &Caps, rep: &Report) -> Vec<BItem> {
     for (i, (module, inputs, tags)) in crate::sem_diff::raise_parent_modules().into_iter().enumerate() {
         items.lock().unwrap().push(BItem { space: "raise-parent".into(), choices: vec![i as u32], tags, inputs, module, nontrivial: true });
     }
-    rep.add_stats("raise-parent", "full (4 fixed layouts)", &crate::explore::ExploreStats { leaves: 4, transitions: 4, ..Default::default() });
+    rep.add_stats("raise-parent", "full (8 fixed layouts)", &crate::explore::ExploreStats { leaves: 8, transitions: 8, ..Default::default() });
     items.into_inner().unwrap()
 }
 
